@@ -16,6 +16,12 @@ import (
 const natT = "vnet.networkAddressTranslator"
 const mapT = "vnet.mapping"
 
+// field roles of the NAT and of a mapping, resolved by type and usage (defaults = today's names)
+var (
+	fOut, fIn, fCtr, fMappedIPs, fLocalIPs       = "outboundMap", "inboundMap", "udpPortCounter", "mappedIPs", "localIPs"
+	mExp, mFilt, mMapped, mLocal, mProto, mBound = "expires", "filters", "mapped", "local", "proto", "bound"
+)
+
 type natRoles struct {
 	out, in, findOut, findIn, remove, alloc, pairMapped, pairLocal *ssa.Function
 	routerIn                                                        *ssa.Function
@@ -36,26 +42,31 @@ func resolveNAT(p *Prog) *natRoles {
 	if len(r.problems) > 0 {
 		return r
 	}
-	// helpers by role: functions called from translate* that look up a map
+	resolveNATFields(p, r)
+	if len(r.problems) > 0 {
+		return r
+	}
+	// helpers by role
 	for _, f := range p.Funcs {
-		if pkgOf(f) != "vnet" || f.Signature.Recv() == nil || typeName(f.Signature.Recv().Type()) != natT {
+		if pkgOf(f) != "vnet" || f.Signature.Recv() == nil || typeName(f.Signature.Recv().Type()) != natT || f == r.out || f == r.in {
 			continue
 		}
 		lookOut, lookIn, delOut := false, false, false
 		instrsOf(f, func(in ssa.Instruction) {
 			if lk, ok := in.(*ssa.Lookup); ok {
-				if isFieldLoad(lk.X, natT, "outboundMap") {
+				if isFieldLoad(lk.X, natT, fOut) {
 					lookOut = true
 				}
-				if isFieldLoad(lk.X, natT, "inboundMap") {
+				if isFieldLoad(lk.X, natT, fIn) {
 					lookIn = true
 				}
 			}
-			if isCall(in, "builtin.delete") && isFieldLoad(in.(ssa.CallInstruction).Common().Args[0], natT, "outboundMap") {
+			if isCall(in, "builtin.delete") && isFieldLoad(in.(ssa.CallInstruction).Common().Args[0], natT, fOut) {
 				delOut = true
 			}
 		})
 		res := f.Signature.Results()
+		prm := f.Signature.Params()
 		switch {
 		case delOut:
 			r.remove = f
@@ -63,17 +74,24 @@ func resolveNAT(p *Prog) *natRoles {
 			r.findOut = f
 		case lookIn && res.Len() == 1 && typeName(res.At(0).Type()) == mapT:
 			r.findIn = f
-		}
-	}
-	instrsOf(r.out, func(in ssa.Instruction) {
-		if call, ok := in.(*ssa.Call); ok {
-			if sc := call.Call.StaticCallee(); sc != nil && inModule(sc) && sc.Signature.Results().Len() == 2 && sc.Signature.Results().At(0).Type().String() == "string" {
-				r.alloc = sc
+		case res.Len() == 2 && res.At(0).Type().String() == "string" && prm.Len() == 0:
+			r.alloc = f
+		case res.Len() == 1 && prm.Len() == 1 && res.At(0).Type().String() == "net.IP" && prm.At(0).Type().String() == "net.IP":
+			// pairing helpers: which list do they return an element of?
+			for _, v := range returnedValues(f, 0) {
+				if u, ok := v.(*ssa.UnOp); ok {
+					if ia, ok := u.X.(*ssa.IndexAddr); ok {
+						if isFieldLoad(ia.X, natT, fMappedIPs) {
+							r.pairMapped = f
+						}
+						if isFieldLoad(ia.X, natT, fLocalIPs) {
+							r.pairLocal = f
+						}
+					}
+				}
 			}
 		}
-	})
-	r.pairMapped = p.Func("vnet", "networkAddressTranslator", "getPairedMappedIP")
-	r.pairLocal = p.Func("vnet", "networkAddressTranslator", "getPairedLocalIP")
+	}
 	r.routerIn = p.Func("vnet", "Router", "onInboundChunk")
 	for n, f := range map[string]*ssa.Function{"outbound lookup helper": r.findOut, "inbound lookup helper": r.findIn, "removal helper": r.remove,
 		"getPairedMappedIP": r.pairMapped, "getPairedLocalIP": r.pairLocal, "Router.onInboundChunk": r.routerIn} {
@@ -161,7 +179,7 @@ func addrClass(v ssa.Value) string {
 			return "src.IP:port"
 		}
 	case call.Call.IsInvoke() && call.Call.Method.Name() == "Network":
-		return "proto"
+		return mProto
 	case n == "fmt.Sprintf":
 		return "fmt"
 	}
@@ -289,7 +307,7 @@ func skeleton(parts []kpart) (string, []ssa.Value) {
 			continue
 		}
 		cl := addrClass(p.V)
-		if i == 0 && (cl == "proto" || cl == "field:"+mapT+".proto") {
+		if i == 0 && (cl == mProto || cl == "field:"+mapT+".proto") {
 			sb = append(sb, "PROTO")
 			continue
 		}
@@ -339,7 +357,7 @@ func natKeyUses(p *Prog) []keyUse {
 			continue
 		}
 		instrsOf(f, func(in ssa.Instruction) {
-			for _, m := range []string{"outboundMap", "inboundMap"} {
+			for _, m := range []string{fOut, fIn} {
 				switch x := in.(type) {
 				case *ssa.Lookup:
 					if isFieldLoad(x.X, natT, m) {
@@ -525,7 +543,7 @@ func runC02(c *Ctx) {
 	// R2 key agreement
 	o = c.Obl("R2", natT+".maps", "all keys of outboundMap have the shape proto:local:bound and all keys of inboundMap the shape proto:mapped, with ':' between parts; insert and delete keys agree component by component; creation registers the mapping in both maps and removal deletes from both", 6)
 	uses := natKeyUses(p)
-	wantSkel := map[string]string{"outboundMap": "PROTO : V : V", "inboundMap": "PROTO : V"}
+	wantSkel := map[string]string{fOut: "PROTO : V : V", fIn: "PROTO : V"}
 	comps := map[string][][]string{}
 	var creation *ssa.Alloc
 	instrsOf(r.out, func(in ssa.Instruction) {
@@ -582,9 +600,9 @@ func runC02(c *Ctx) {
 			}
 		}
 	}
-	agree("outboundMap")
-	agree("inboundMap")
-	if ins := comps["outboundMap/insert"]; len(ins) == 1 && len(ins[0]) == 2 {
+	agree(fOut)
+	agree(fIn)
+	if ins := comps[fOut+"/insert"]; len(ins) == 1 && len(ins[0]) == 2 {
 		if ins[0][0] != "src.IP:port" {
 			o.Fail(r.out.Pos(), "the outbound key is not built from the chunk's source address and port (got %s)", ins[0][0])
 		}
@@ -592,7 +610,7 @@ func runC02(c *Ctx) {
 			o.Fail(r.out.Pos(), "the outbound key's second part is not the behaviour-dependent bound value (got %s)", ins[0][1])
 		}
 	}
-	for _, lk := range comps["inboundMap/lookup"] {
+	for _, lk := range comps[fIn+"/lookup"] {
 		if len(lk) == 1 && lk[0] != "dst.IP:port" && !strings.HasPrefix(lk[0], "fmt") && !strings.HasPrefix(lk[0], "call:") {
 			o.Fail(r.in.Pos(), "inbound lookup is keyed by %s, not by the chunk's destination address", lk[0])
 		}
@@ -601,7 +619,7 @@ func runC02(c *Ctx) {
 	if creation == nil {
 		o.Fail(r.out.Pos(), "no mapping is created in translateOutbound")
 	} else {
-		for _, m := range []string{"outboundMap", "inboundMap"} {
+		for _, m := range []string{fOut, fIn} {
 			isIns := func(in ssa.Instruction) bool {
 				mu, ok := in.(*ssa.MapUpdate)
 				return ok && isFieldLoad(mu.Map, natT, m) && mu.Value == ssa.Value(creation)
@@ -611,7 +629,7 @@ func runC02(c *Ctx) {
 			}
 		}
 	}
-	for _, m := range []string{"outboundMap", "inboundMap"} {
+	for _, m := range []string{fOut, fIn} {
 		if ok, bad := mustPassU(entryPos(r.remove), isReturn, func(in ssa.Instruction) bool {
 			return isCall(in, "builtin.delete") && isFieldLoad(in.(ssa.CallInstruction).Common().Args[0], natT, m)
 		}); !ok {
@@ -623,7 +641,7 @@ func runC02(c *Ctx) {
 	o = c.Obl("R3", mapT+".expires", "the expiry of a mapping is written only on outbound paths (creation and outbound reuse), never by anything reachable from the inbound translation; outbound reuse always refreshes", 2)
 	cg := p.CG()
 	fromIn := cg.reachableFrom([]*ssa.Function{r.in, r.routerIn}, func(e cgEdge) bool { return pkgOf(e.To) == "vnet" && e.Kind != "ref" })
-	isRefresh := func(in ssa.Instruction) bool { return isFieldStore(in, mapT, "expires") }
+	isRefresh := func(in ssa.Instruction) bool { return isFieldStore(in, mapT, mExp) }
 	for _, f := range p.Funcs {
 		if pkgOf(f) != "vnet" {
 			continue
@@ -718,7 +736,7 @@ func runC02(c *Ctx) {
 				notExpired := func(ft fact) bool {
 					return boolFact(ft, func(v ssa.Value) bool {
 						cl, ok := v.(*ssa.Call)
-						return ok && callName(cl) == "(time.Time).After" && isFieldLoad(cl.Call.Args[1], mapT, "expires")
+						return ok && callName(cl) == "(time.Time).After" && isFieldLoad(cl.Call.Args[1], mapT, mExp)
 					}, false)
 				}
 				notFound := func(ft fact) bool {
@@ -752,7 +770,7 @@ func runC02(c *Ctx) {
 			if !hasFact(in, func(ft fact) bool {
 				return boolFact(ft, func(v ssa.Value) bool {
 					cl, ok := v.(*ssa.Call)
-					return ok && callName(cl) == "(time.Time).After" && isFieldLoad(cl.Call.Args[1], mapT, "expires")
+					return ok && callName(cl) == "(time.Time).After" && isFieldLoad(cl.Call.Args[1], mapT, mExp)
 				}, true)
 			}) {
 				o.Fail(in.Pos(), "%s removes a mapping that was not found expired", fname(f))
@@ -780,7 +798,7 @@ func runC02(c *Ctx) {
 	} else {
 		// no allocator helper: the mapped address is built where the mapping is created
 		instrsOf(r.out, func(in ssa.Instruction) {
-			if st, ok := in.(*ssa.Store); ok && isFieldStore(st, mapT, "mapped") {
+			if st, ok := in.(*ssa.Store); ok && isFieldStore(st, mapT, mMapped) {
 				addrVals = append(addrVals, st.Val)
 			}
 		})
@@ -812,7 +830,7 @@ func runC02(c *Ctx) {
 			}
 			o.Site(in.Pos(), "port = %d + %s", base, rest.String())
 			rm, ok := rest.(*ssa.BinOp)
-			if !ok || rm.Op != token.REM || !isFieldLoad(rm.X, natT, "udpPortCounter") {
+			if !ok || rm.Op != token.REM || !isFieldLoad(rm.X, natT, fCtr) {
 				o.Fail(in.Pos(), "the external port is %d + counter without reduction modulo the size of the dynamic range: after %d mappings the port exceeds 65535, the translation fails and the router goroutine exits", base, 65536-base)
 				continue
 			}
@@ -831,7 +849,7 @@ func runC02(c *Ctx) {
 		if pkgOf(f) != "vnet" {
 			continue
 		}
-		for _, in := range findU(f, func(in ssa.Instruction) bool { return isFieldStore(in, natT, "udpPortCounter") }) {
+		for _, in := range findU(f, func(in ssa.Instruction) bool { return isFieldStore(in, natT, fCtr) }) {
 			st := in.(*ssa.Store)
 			if isFreshBase(st.Addr.(*ssa.FieldAddr).X) {
 				continue
@@ -881,7 +899,7 @@ func runC02(c *Ctx) {
 			if k.V == nil {
 				continue
 			}
-			if derivesFrom(k.V, func(v ssa.Value) bool { return isFieldLoad(v, natT, "mappedIPs") }, true) {
+			if derivesFrom(k.V, func(v ssa.Value) bool { return isFieldLoad(v, natT, fMappedIPs) }, true) {
 				hasIP = true
 			}
 			if portVal != nil && k.V == portVal {
@@ -901,7 +919,7 @@ func runC02(c *Ctx) {
 			continue
 		}
 		a := in.(*ssa.Call).Call.Args[0]
-		if !isFieldLoad(a, mapT, "mapped") {
+		if !isFieldLoad(a, mapT, mMapped) {
 			o.Fail(in.Pos(), "in NAPT mode the source is not rewritten to the mapping's external address")
 		}
 	}
@@ -952,8 +970,8 @@ func runC02(c *Ctx) {
 			o.Fail(f.Pos(), "%s never returns a paired address", fname(f))
 		}
 	}
-	pairShape(r.pairMapped, "localIPs", "mappedIPs")
-	pairShape(r.pairLocal, "mappedIPs", "localIPs")
+	pairShape(r.pairMapped, fLocalIPs, fMappedIPs)
+	pairShape(r.pairLocal, fMappedIPs, fLocalIPs)
 	oneToOne := func(f *ssa.Function, setter, other, addrMeth string, pair *ssa.Function) {
 		n := 0
 		for _, in := range findU(f, func(in ssa.Instruction) bool { return isSetAddr(in, setter) }) {
@@ -1108,7 +1126,7 @@ func runC03(c *Ctx) {
 				return false
 			}
 			lk, ok := ex.Tuple.(*ssa.Lookup)
-			if !ok || !isFieldLoad(lk.X, mapT, "filters") {
+			if !ok || !isFieldLoad(lk.X, mapT, mFilt) {
 				return false
 			}
 			fr, _ := asFieldLoad(lk.X)
@@ -1134,7 +1152,7 @@ func runC03(c *Ctx) {
 		// R5 owner
 		a := in.(*ssa.Call).Call.Args[0]
 		fr, ok := asFieldLoad(a)
-		if !ok || fr.SName != mapT || fr.Field != "local" || findCall == nil || fr.Base != ssa.Value(findCall) {
+		if !ok || fr.SName != mapT || fr.Field != mLocal || findCall == nil || fr.Base != ssa.Value(findCall) {
 			o.Fail(in.Pos(), "the destination is not rewritten to the internal address (.local) of the mapping found for the datagram's destination")
 		}
 	}
@@ -1189,11 +1207,11 @@ func runC03(c *Ctx) {
 	})
 	isPerm := func(in ssa.Instruction) bool {
 		mu, ok := in.(*ssa.MapUpdate)
-		return ok && isFieldLoad(mu.Map, mapT, "filters") && mu.Key == ssa.Value(outPh[0])
+		return ok && isFieldLoad(mu.Map, mapT, mFilt) && mu.Key == ssa.Value(outPh[0])
 	}
 	for _, in := range findU(OUT, func(in ssa.Instruction) bool {
 		mu, ok := in.(*ssa.MapUpdate)
-		return ok && isFieldLoad(mu.Map, mapT, "filters")
+		return ok && isFieldLoad(mu.Map, mapT, mFilt)
 	}) {
 		mu := in.(*ssa.MapUpdate)
 		o.Site(in.Pos(), "filters[%s] = ...", mu.Key.Name())
@@ -1216,7 +1234,7 @@ func runC03(c *Ctx) {
 						return false
 					}
 					lk, ok := ex.Tuple.(*ssa.Lookup)
-					return ok && isFieldLoad(lk.X, mapT, "filters") && lk.Index == ssa.Value(outPh[0])
+					return ok && isFieldLoad(lk.X, mapT, mFilt) && lk.Index == ssa.Value(outPh[0])
 				}, true) {
 					return true
 				}
@@ -1230,7 +1248,7 @@ func runC03(c *Ctx) {
 	}
 	// fresh permission set
 	instrsOf(OUT, func(in ssa.Instruction) {
-		if st, ok := in.(*ssa.Store); ok && isFieldStore(st, mapT, "filters") {
+		if st, ok := in.(*ssa.Store); ok && isFieldStore(st, mapT, mFilt) {
 			if _, isMk := st.Val.(*ssa.MakeMap); !isMk {
 				o.Fail(in.Pos(), "a new mapping does not start with a fresh permission set (permissions would leak between mappings)")
 			}
@@ -1251,7 +1269,7 @@ func runC03(c *Ctx) {
 		instrsOf(f, func(in ssa.Instruction) {
 			switch x := in.(type) {
 			case *ssa.MapUpdate:
-				if isFieldLoad(x.Map, natT, "outboundMap") || isFieldLoad(x.Map, natT, "inboundMap") || isFieldLoad(x.Map, mapT, "filters") {
+				if isFieldLoad(x.Map, natT, fOut) || isFieldLoad(x.Map, natT, fIn) || isFieldLoad(x.Map, mapT, mFilt) {
 					o.Fail(in.Pos(), "%s (reachable from the inbound translation) inserts into a NAT table / permission set: a refused datagram changes later answers", fname(f))
 				}
 			case *ssa.Store:
@@ -1331,4 +1349,132 @@ func allocReturns(f *ssa.Function) []ssa.Instruction {
 		return nil
 	}
 	return findInstrs(f, isReturn)
+}
+
+// resolveNATFields finds the fields of the NAT and of a mapping by role.
+func resolveNATFields(p *Prog, r *natRoles) {
+	miss := func(f string, a ...interface{}) { r.problems = append(r.problems, fmt.Sprintf(f, a...)) }
+	nn, mn := p.Named("vnet", "networkAddressTranslator"), p.Named("vnet", "mapping")
+	if nn == nil || mn == nil {
+		miss("types networkAddressTranslator / mapping not found")
+		return
+	}
+	nst, _ := nn.Underlying().(*types.Struct)
+	mst, _ := mn.Underlying().(*types.Struct)
+	var maps, lists, mstrings []string
+	ctr := ""
+	for i := 0; i < nst.NumFields(); i++ {
+		f := nst.Field(i)
+		switch t := f.Type().Underlying().(type) {
+		case *types.Map:
+			if typeName(t.Elem()) == mapT {
+				maps = append(maps, f.Name())
+			}
+		case *types.Slice:
+			if t.Elem().String() == "net.IP" {
+				lists = append(lists, f.Name())
+			}
+		case *types.Basic:
+			if t.Kind() == types.Int {
+				ctr = f.Name()
+			}
+		}
+	}
+	filt, exp := "", ""
+	for i := 0; i < mst.NumFields(); i++ {
+		f := mst.Field(i)
+		switch t := f.Type().Underlying().(type) {
+		case *types.Map:
+			filt = f.Name()
+		case *types.Struct:
+			if f.Type().String() == "time.Time" {
+				exp = f.Name()
+			}
+		case *types.Basic:
+			if t.Kind() == types.String {
+				mstrings = append(mstrings, f.Name())
+			}
+		}
+	}
+	if len(maps) != 2 || len(lists) != 2 || ctr == "" || filt == "" || exp == "" || len(mstrings) != 4 {
+		miss("NAT / mapping fields not recognised (maps %v, IP lists %v, counter %q, filters %q, expiry %q, strings %v)", maps, lists, ctr, filt, exp, mstrings)
+		return
+	}
+	fCtr, mFilt, mExp = ctr, filt, exp
+	// inbound map: the one looked up on the inbound path
+	inSet := map[string]bool{}
+	for _, g := range p.CG().reachableSlice(r.in, "vnet") {
+		instrsOf(g, func(in ssa.Instruction) {
+			if lk, ok := in.(*ssa.Lookup); ok {
+				if fr, ok := asFieldLoad(lk.X); ok && fr.SName == natT {
+					inSet[fr.Field] = true
+				}
+			}
+		})
+	}
+	fIn, fOut = "", ""
+	for _, m := range maps {
+		if inSet[m] {
+			fIn = m
+		} else {
+			fOut = m
+		}
+	}
+	// mapped IPs: the list whose element 0 is used for the external address on the outbound path
+	mset := map[string]bool{}
+	for _, g := range p.CG().reachableSlice(r.out, "vnet") {
+		instrsOf(g, func(in ssa.Instruction) {
+			if ia, ok := in.(*ssa.IndexAddr); ok {
+				if k, ok := constInt(ia.Index); ok && k == 0 {
+					if fr, ok := asFieldLoad(ia.X); ok && fr.SName == natT {
+						mset[fr.Field] = true
+					}
+				}
+			}
+		})
+	}
+	fMappedIPs, fLocalIPs = "", ""
+	for _, l := range lists {
+		if mset[l] {
+			fMappedIPs = l
+		} else {
+			fLocalIPs = l
+		}
+	}
+	// mapping strings: mapped = passed to setSourceAddr on the outbound path; local = passed to setDestinationAddr on the inbound path;
+	// proto = stored from Network(); bound = the remaining one
+	mMapped, mLocal, mProto, mBound = "", "", "", ""
+	for _, g := range p.CG().reachableSlice(r.out, "vnet") {
+		instrsOf(g, func(in ssa.Instruction) {
+			if isInvoke(in, "setSourceAddr") {
+				if fr, ok := asFieldLoad(in.(*ssa.Call).Call.Args[0]); ok && fr.SName == mapT {
+					mMapped = fr.Field
+				}
+			}
+			if st, ok := in.(*ssa.Store); ok {
+				if fr, ok := asFieldAddr(st.Addr); ok && fr.SName == mapT {
+					if cl, ok := st.Val.(*ssa.Call); ok && cl.Call.IsInvoke() && cl.Call.Method.Name() == "Network" {
+						mProto = fr.Field
+					}
+				}
+			}
+		})
+	}
+	for _, g := range p.CG().reachableSlice(r.in, "vnet") {
+		instrsOf(g, func(in ssa.Instruction) {
+			if isInvoke(in, "setDestinationAddr") {
+				if fr, ok := asFieldLoad(in.(*ssa.Call).Call.Args[0]); ok && fr.SName == mapT {
+					mLocal = fr.Field
+				}
+			}
+		})
+	}
+	for _, n := range mstrings {
+		if n != mMapped && n != mLocal && n != mProto {
+			mBound = n
+		}
+	}
+	if fIn == "" || fOut == "" || fMappedIPs == "" || fLocalIPs == "" || mMapped == "" || mLocal == "" || mProto == "" || mBound == "" {
+		miss("NAT field roles not resolved (in=%q out=%q mappedIPs=%q localIPs=%q mapped=%q local=%q proto=%q bound=%q)", fIn, fOut, fMappedIPs, fLocalIPs, mMapped, mLocal, mProto, mBound)
+	}
 }
